@@ -279,7 +279,7 @@ impl Prop for C02 {
             level: "exploration",
             rule: "exhaustive product over parsed messages: 32 header-flag sets x both framings x payload sizes {0..12,255,256,4096,max} and every size 0..max for 2 (thorough: all 32) flag sets x 3 id sets x reception corners (secs {0,1.6e9,u32::MAX} x micros {0,999999}) x timestamp {0,1,u32::MAX} x mcnt {0,255}; each message is parsed from independently built bytes, written with to_write, re-read with parse_dlt_with_storage_header (must consume exactly the written bytes and agree on ecu, reception time, timestamp and its presence, mcnt, byte-order flag, extended header, payload) and written again (byte-identical). Stream family: all sequences of <= 5 (thorough 6) messages from a 10-variant pool incl. payloads with embedded frame markers, exported back-to-back, re-read with DltMessageIterator (same messages in order, nothing skipped), exported again (byte-identical). File family: a 600 KB normal-form file is read the way `adlt convert` reads it (LowMarkBufReader, 512 KiB, low mark = the repository's DLT_MIN_PARSER_LOOKAHEAD_SIZE and DLT_MAX_STORAGE_MSG_SIZE) with a near-maximum message starting at every buffered-byte count around the low mark; every message must be exported, byte-identical. Non-trivial = export drops a header field (ECU/session id move) or payload > 255 bytes.".into(),
             assumptions: vec!["storage micros < 10^6 (premise of the property)".into(), "CLI level: adlt convert -o on files with a near-maximum message at the start / inside / at the end (family cli_export); the option product is C14's".into()],
-            budget_s: (40, 900),
+            budget_s: (90, 900),
             workers: 0,
             required_landmarks: vec!["export_drops_header_field(WEID/WSID)", "serial_source", "max_size", "stream_with_embedded_marker", "file_window", "cli_export"],
         }
